@@ -165,6 +165,22 @@ def run(ctx):
     merge, split = cell.methods.get("merge"), cell.methods.get("split")
     if not (merge and split):
         raise AnalysisError("anchor vanished: _Cell.merge / split")
+    # every function below is analysed in canonical form: desugared, with statement-level calls to repository helpers inlined
+    import copy as _copy
+
+    from sa.inline import expand as _expand
+
+    def canon(f):
+        if f is None:
+            return None
+        g = _copy.copy(f)
+        g.node = _expand(prog, f)
+        return g
+
+    merge, split = canon(merge), canon(split)
+    for _name in list(rng.methods):
+        if _name.startswith("iter_") or _name in ("contains_merged_cell", "move_content_to_origin"):
+            rng.methods[_name] = canon(rng.methods[_name])
 
     # -- R14.1 -------------------------------------------------------------------------------------------
     ctx.rule("R14.1", "refusal tests raise ValueError and dominate every mutating statement of merge / split")
